@@ -153,7 +153,84 @@ pub fn crash_oracles(report: &mut Report, case: &Value, sc: &Scenario, arch: &st
     }
 }
 
+/// Directed: the interrupted write is a BIG one — an incompressible 3 MiB file stored with the default options,
+/// the backup killed right after its block file was created (zero-length), then a later backup of the same
+/// source.  Real code + the property's oracles (archive opens, earlier version as before, the later backup
+/// completes and restores exactly, validate is clean).
+fn big_block_interrupted(seed: u64, report: &mut Report) {
+    let work = tempfile::tempdir().unwrap();
+    let (src, arch) = (work.path().join("src"), work.path().join("arch"));
+    std::fs::create_dir(&src).unwrap();
+    std::fs::write(src.join("small"), b"first version").unwrap();
+    create_archive(&arch);
+    let p = BackupParams { max_entries_per_hunk: 100_000, max_block_size: 20 << 20, small_file_cap: 1 << 20, owner: true, exclude: vec![] };
+    let b0 = real_backup(&arch, &src, &p, IceptConfig::default());
+    let snap0 = observe(&src);
+    let mut x = seed | 1;
+    let noise: Vec<u8> = (0..3 * (1usize << 20)).map(|_| { x ^= x << 13; x ^= x >> 7; x ^= x << 17; (x >> 24) as u8 }).collect();
+    std::fs::write(src.join("video"), &noise).unwrap();
+    let snap1 = observe(&src);
+    let case = json!({"directed": "big-block-interrupted", "file": "3 MiB of noise", "options": "defaults"});
+    report.case("big-block-interrupted", true);
+    if !b0.result.starts_with("result ok") {
+        return;
+    }
+    // find the crash point that leaves a zero-length block file
+    let scratch = work.path().join("scratch");
+    copy_dir(&arch, &scratch);
+    let dry = real_backup(&scratch, &src, &p, IceptConfig::default());
+    let _ = std::fs::remove_dir_all(&scratch);
+    let mut hit = false;
+    for k in 0..dry.steps {
+        copy_dir(&arch, &scratch);
+        let _ = real_backup(&scratch, &src, &p, IceptConfig { crash_at: Some(k), ..Default::default() });
+        let empty_block = walk_files(&scratch.join("d")).into_iter().any(|f| std::fs::metadata(&f).map(|m| m.len() == 0).unwrap_or(false));
+        let _ = std::fs::remove_dir_all(&scratch);
+        if empty_block {
+            let _ = real_backup(&arch, &src, &p, IceptConfig { crash_at: Some(k), ..Default::default() });
+            hit = true;
+            break;
+        }
+    }
+    if !hit {
+        report.hit("directed:big-block-interrupted:no-such-crash-point");
+        return;
+    }
+    report.hit("directed:big-block-interrupted");
+    let (r0, o0) = restore_observe(&arch, work.path(), &Sel::Band(0), "bb0");
+    if !r0.result.starts_with("result ok") || !r0.events.is_empty() || crate::c01::tree_diff(&snap0, &o0).is_some() {
+        report.oracle_fail("crash:earlier-version-changed", case.clone(), "the version completed before the interruption no longer restores as before", json!(trunc(&r0.result)));
+    }
+    let later = real_backup(&arch, &src, &p, IceptConfig::default());
+    if !later.result.starts_with("result ok") {
+        report.oracle_fail("crash:resume-failed", case.clone(), "a later backup of the same source does not complete", json!(trunc(&later.result)));
+        return;
+    }
+    let (rl, ol) = restore_observe(&arch, work.path(), &Sel::Closed, "bbl");
+    if !rl.result.starts_with("result ok") || !rl.events.is_empty() {
+        report.oracle_fail("crash:resume-restore-failed", case.clone(), "the version completed after the interruption does not restore cleanly", json!({"result": trunc(&rl.result), "events": rl.events.iter().take(2).collect::<Vec<_>>()}));
+    } else if let Some(d) = crate::c01::tree_diff(&snap1, &ol) {
+        report.oracle_fail("crash:resume-restore-differs", case.clone(), "the version completed after the interruption does not restore to the source", json!({"field": d["field"], "apath": d["apath"]}));
+    }
+    let v = real_validate(&arch, false, IceptConfig::default());
+    if !v.result.starts_with("result ok") || v.events.iter().any(|e| e.starts_with("event error") && !e.contains("band-head-missing")) {
+        report.oracle_fail("crash:validate-complains", case, "validate reports errors after the interrupted and the later backup", json!({"events": v.events.iter().take(3).collect::<Vec<_>>()}));
+    }
+}
+
+fn walk_files(root: &std::path::Path) -> Vec<std::path::PathBuf> {
+    let mut out = vec![];
+    if let Ok(rd) = std::fs::read_dir(root) {
+        for e in rd.flatten() {
+            let p = e.path();
+            if p.is_dir() { out.extend(walk_files(&p)); } else { out.push(p); }
+        }
+    }
+    out
+}
+
 pub fn run(tier: &str, seed: u64, report: &mut Report) {
+    big_block_interrupted(seed, report);
     let thorough = tier == "thorough";
     let n_scen = if thorough { 60 } else { 5 };
     for sidx in 0..n_scen {
